@@ -168,7 +168,25 @@ func judge(sc *Scenario, o *Outcome) (wire, residual []Item, tag []byte, probs [
 	if nclose > 1 {
 		add("C10/close/tag-written-twice", fmt.Sprintf("%d closing tags on the wire: %q", nclose, trunc(o.Wire)))
 	}
-	if closerReturned && nclose == 0 {
+	if sc.Mode == "forced" {
+		// exactly once means at most one write ATTEMPT of the closing tag at the
+		// connection, whether or not the connection accepted it; closing is final:
+		// once any Close (or Serve) has returned, with or without an error, the bit
+		// is set and nothing more is handed to the connection
+		if o.TagAttempts > 1 {
+			add("C10/close/tag-write-attempted-twice", fmt.Sprintf("the closing tag was handed to the connection %d times (the connection %s the first attempt)", o.TagAttempts, map[bool]string{true: "refused", false: "accepted"}[o.faulted]))
+		}
+		if closerReturned && !o.OCL {
+			add("C10/close/bit-not-set-after-close", fmt.Sprintf("a Close call (or Serve) has returned but OutputStreamClosed is not set (closing-tag write attempts: %d, the connection refuses the tag: %v)", o.TagAttempts, o.faulted))
+		}
+		if o.BytesAfter > 0 && o.TagAttempts <= 1 {
+			add("C10/close/written-after-close-attempt", fmt.Sprintf("%d bytes were handed to the connection after the write attempt of the closing tag", o.BytesAfter))
+		}
+		if closerReturned && o.TagAttempts == 0 {
+			add("C10/close/no-tag", "a Close call (or Serve) has returned but the closing tag was never handed to the connection")
+		}
+	}
+	if closerReturned && nclose == 0 && !o.faulted {
 		add("C10/close/no-tag", "a Close call (or Serve) has returned but no closing tag is on the wire")
 	}
 	if tag != nil {
@@ -180,7 +198,7 @@ func judge(sc *Scenario, o *Outcome) (wire, residual []Item, tag []byte, probs [
 			add("C10/close/wrong-closing-element", fmt.Sprintf("the stream was closed with %q, this kind of session closes with %q", tag, want))
 		}
 	}
-	if o.OCL != (nclose > 0) {
+	if o.OCL != (nclose > 0) && !o.faulted {
 		add("C10/close/bit-disagrees-with-wire", fmt.Sprintf("OutputStreamClosed=%v but %d closing tags written", o.OCL, nclose))
 	}
 	// clause 2: nothing after the closing tag
@@ -233,15 +251,15 @@ func judge(sc *Scenario, o *Outcome) (wire, residual []Item, tag []byte, probs [
 		}
 		switch o.cause {
 		case "peerclose":
-			if r != "ENil" {
+			if r != "ENil" && !(o.faulted && r == "EWrite") {
 				add("C10/Serve/peer-close-returns-error", "the peer closed its stream and Serve returned "+r)
 			}
 		case "peererror":
-			if r != "EStream" {
+			if r != "EStream" && !(o.faulted && r == "EWrite") {
 				add("C10/Serve/peer-error-not-returned", "the peer sent a stream error and Serve returned "+r)
 			}
 		case "timeout":
-			if r != "ETimeout" && r != "ECtxDeadline" {
+			if r != "ETimeout" && r != "ECtxDeadline" && !(o.faulted && r == "EWrite") {
 				add("C10/Serve/deadline-returns-"+r, "the close deadline passed and Serve returned "+r)
 			}
 		case "unknown":
@@ -366,6 +384,8 @@ func coqKind(a Actor, idx int) string {
 		return "KServe"
 	case "probe":
 		return "KProbe"
+	case "fault":
+		return "KFault"
 	case "peer":
 		ev := "PBad"
 		switch a.Ev.Type {
@@ -396,8 +416,8 @@ func coqCase(sc *Scenario, o *Outcome, wire, residual []Item, tag []byte) string
 			rs = append(rs, "Some "+r)
 		}
 	}
-	return fmt.Sprintf("mkcase %s %s [%s] [%s] %s %s [%s] %s %s %s",
+	return fmt.Sprintf("mkcase %s %s [%s] [%s] %s %s [%s] %s %s %s %s",
 		hx.CoqBool(sc.DLSup), hx.CoqBool(sc.WS), strings.Join(ks, "; "), strings.Join(sch, "; "),
 		coqItems(wire), coqItems(residual), strings.Join(rs, "; "),
-		hx.CoqBool(o.OCL), hx.CoqBool(o.ICL), hx.CoqBytes(tag))
+		hx.CoqBool(o.OCL), hx.CoqBool(o.ICL), hx.CoqNat(o.TagAttempts), hx.CoqBytes(tag))
 }
